@@ -2,7 +2,7 @@
     current status.  Property theorems only. *)
 From stdpp Require Import gmap list numbers sorting.
 From Coq Require Import ZArith NArith.
-From Verif Require Import Tx.Store Tx.Ledger Tx.Hist Tx.Inv Tx.Refine Tx.RefineAll Tx.Corollaries.
+From Verif Require Import Tx.Store Tx.Ledger Tx.Hist Tx.Inv Tx.Refine Tx.RefineAll Tx.Corollaries Tx.InvObs Tx.InvRange.
 Local Open Scope Z_scope.
 
 (** After every prefix of a chain-consistent history, for every transaction of
@@ -21,8 +21,52 @@ Theorem C13_details_equal_ledger :
 Proof. exact c13_holds. Qed.
 Print Assumptions C13_details_equal_ledger.
 
-(** PARTIAL: range iteration ([range_transactions]) is part of the model and of
-    the correspondence run (both directions, -1 conventions), but its
-    "each known transaction exactly once, under its current block" statement
-    is not yet a closed theorem; it follows from [inv_blocks_sound],
-    [inv_blocks_complete] and [inv_unmined] of the invariant. *)
+(** Range iteration, in either direction: after every prefix of every
+    chain-consistent history, for every (begin, end) with the -1 convention,
+    the block groups correspond one-to-one and in order (ascending, or
+    descending when begin >= end) to the confirmed heights inside the range,
+    each group holding exactly the transactions currently confirmed at that
+    height, once, with details equal to the ledger's; the unconfirmed group
+    holds exactly the unconfirmed transactions, once; the full forward and
+    backward iterations report every known transaction exactly once (a
+    permutation of the ledger's known list: removed transactions never), the
+    unconfirmed group last resp. first, the backward block groups being the
+    reverse of the forward ones (confirmed heights below 2^31). *)
+Theorem C13_range_iteration_equals_ledger :
+  ∀ (U : universe) (h p : list event),
+    wf_universe U = true → chain_consistent U h = true → p `prefix_of` h →
+    let s := st (run U p) in let F := fs (spec_run U p) in
+    (∀ b e, ∃ hl : list Z,
+        (if bool_decide (rb_bound b < rb_bound e) then StronglySorted Z.lt hl
+         else StronglySorted (flip Z.lt) hl) ∧
+        (∀ hh, hh ∈ hl ↔ conf_height F hh ∧
+                         Z.min (rb_bound b) (rb_bound e) <= hh <= Z.max (rb_bound b) (rb_bound e)) ∧
+        Forall2 (block_group_ok U s F) hl (range_blocks U s b e)) ∧
+    (range_unmined U s = [] ↔ f_unconf F = ∅) ∧
+    (f_unconf F ≠ ∅ → ∃ g, range_unmined U s = [g] ∧ unmined_group_ok U s F g) ∧
+    ((∀ t hh b, f_conf F !! t = Some (hh, b) → hh <= max_i32) →
+     group_txids (range_transactions U s 0 (-1)) ≡ₚ known_list F ∧
+     group_txids (range_transactions U s (-1) 0) ≡ₚ known_list F ∧
+     range_transactions U s 0 (-1) = range_blocks U s 0 (-1) ++ range_unmined U s ∧
+     range_transactions U s (-1) 0 = range_unmined U s ++ reverse (range_blocks U s 0 (-1))).
+Proof.
+  intros U h p Hwf Hcons Hpre.
+  destruct (refinement_prefix U h p Hwf Hcons Hpre) as [HI _].
+  destruct (range_correct U _ _ Hwf HI) as (H1 & _ & H3 & H4 & H5).
+  split; [exact H1|]. split; [exact H3|]. split; [exact H4|].
+  intros Hmax. destruct (H5 Hmax) as (Ha & Hb & Hc & _ & He). auto.
+Qed.
+Print Assumptions C13_range_iteration_equals_ledger.
+
+(** What is ever watched and what is listed as leased are the ledger's too. *)
+Theorem C13_watch_and_lease_lists : ∀ (U : universe) (h p : list event) (now : Z),
+  wf_universe U = true → chain_consistent U h = true → p `prefix_of` h →
+  let s := st (run U p) in let F := fs (spec_run U p) in
+  map u_op (outputs_to_watch U s now) ≡ₚ spec_watch U F ∧
+  list_locked s now ≡ₚ filter (fun kv => now < l_expiry kv.2) (map_to_list (f_leases F)).
+Proof.
+  intros U h p now Hwf Hcons Hpre.
+  destruct (refinement_prefix U h p Hwf Hcons Hpre) as [HI _].
+  split; [by apply watch_correct | by apply (locked_list_correct U)].
+Qed.
+Print Assumptions C13_watch_and_lease_lists.
